@@ -16,7 +16,11 @@ import (
 func NewEngine(ld *Loader) *Engine {
 	eng := &Engine{prog: ld.prog, ld: ld, specs: map[string]*FuncSpec{}, stable: map[string]bool{}, ghostVars: map[string]bool{},
 		guarded: map[string]string{}, dropped: map[string]int{}, assumes: map[string]bool{}, maxInline: 3, inlineMax: 60}
+	eng.opaque = map[string]bool{}
 	for path, ps := range ld.pkgSpecs {
+		for _, o := range ps.Opaque {
+			eng.opaque[o] = true
+		}
 		for _, fs := range ps.Funcs {
 			fs.PkgPath = path
 			if fs.Trusted {
@@ -265,6 +269,17 @@ func (s *Script) index() {
 			f := strings.Fields(d)
 			s.declName[i] = f[1]
 			known[f[1]] = true
+		}
+	}
+	for i, d := range s.decls {
+		if strings.HasPrefix(d, "(assert ") {
+			// an axiom about a declared symbol: kept exactly when that symbol is kept
+			for _, x := range symRe.FindAllString(stripStrings(d), -1) {
+				if known[x] {
+					s.declName[i] = x
+					break
+				}
+			}
 		}
 	}
 	isDef := map[string]bool{}
